@@ -149,6 +149,8 @@ def gen_params(ch):
         if as_array:
             buf = np.array(sched, dtype=float)
             kw_call["schedule"] = buf
+        # (the pair arguments are annotated as tuples; handing over lists and mutating them is outside the signature and is
+        # not generated: the unchanged manager keeps a reference to such a list)
         try:
             tm = pp.TimeManager(**kw_call)
         except ValueError:
